@@ -172,6 +172,7 @@ pub fn gen_world(rng: &mut Rng, p: &GenParams) -> WorldSpec {
         default_ports: 0,
         omit_max_retained: false,
         sha256_repo: false,
+        clock_plan: vec![],
     }
 }
 
